@@ -32,7 +32,8 @@ def run(ctx, rep, tier):
     rows = {}
     for tb in tbs:
         row, probs = check_row(tb)
-        rows[row] = rows.get(row, 0) + 1
+        for r in row.split("/"):
+            rows[r] = rows.get(r, 0) + 1
         key = f"{row}: {tb.valuation_str()}"
         if probs:
             rep.bad("C10.a", FN, key, "; ".join(probs), extra={"lines": tb.lines()})
@@ -141,6 +142,11 @@ def run(ctx, rep, tier):
         raise AnalysisError("C10.d: fewer than two tail paths")
     rep.assume("C10.d: the non-accepting tail `return OK` is reached only by a state with no applicable transition and no "
                "Else; whether such states exist is a DFA-level fact not decided here")
+
+    rep.rule("C10.f", "yield resume contract: feed's entry test `start == end -> OK` is emitted whenever some transition carries an action "
+                      "that may return early (a yield returns after advancing; re-invocation may start at the chunk end)")
+    from .c02 import check_needs_end_check
+    check_needs_end_check(ctx, rep, "C10.f")
 
     # condition point fallback returns FAIL
     rep.rule("C10.e", "a condition point whose conditions all fail returns FAIL (never OK/DONE)")
